@@ -71,6 +71,9 @@ type wcase struct {
 	Calls  []wcall   `json:"calls"`
 	FailAt int       `json:"failAt,omitempty"`
 	Save   string    `json:"save,omitempty"` // write the sink bytes to this file
+	// PrefixOf names a file with the fault-free output of the same case: the record then says
+	// whether what reached the sink is a prefix of it (C15)
+	PrefixOf string `json:"prefixOf,omitempty"`
 }
 
 func refSummary(r ref.FrameResult, total int) rec {
@@ -174,6 +177,15 @@ func frameWrite(args []string) error {
 		if len(b) <= smallFrame && len(input) <= smallFrame && len(segs) == 1 {
 			e["bytes"] = ints(b)
 			e["input"] = ints(input)
+		}
+		e["injected"] = c.FailAt > 0 && len(sink.callSizes()) >= c.FailAt
+		e["sinkIsPrefix"] = true
+		if c.PrefixOf != "" {
+			full, err := os.ReadFile(c.PrefixOf)
+			if err != nil {
+				return err
+			}
+			e["sinkIsPrefix"] = isPrefix(b, full)
 		}
 		w.put(e)
 		return nil
@@ -334,7 +346,7 @@ func frameRead(args []string) error {
 		o := runReader(src, c.Cfg, *wd, limit)
 		e := rec{"ev": "read", "case": c.ID, "outcome": o.Outcome, "err": o.Err, "errtext": o.ErrText, "deliveredLen": len(o.Delivered),
 			"deliveredSha": shaID(o.Delivered), "consumed": o.Consumed, "leaked": o.Leaked, "size": u64limbs(uint64(o.Size)),
-			"calls": o.Calls, "srcLen": len(src), "cfg": c.Cfg, "extraErr": o.ExtraErr, "extraCons": o.ExtraCons}
+			"calls": o.Calls, "srcLen": len(src), "cfg": c.Cfg, "extraErr": o.ExtraErr, "extraCons": o.ExtraCons, "srcCalls": o.SrcCalls}
 		if o.ExtraErr == nil {
 			e["extraErr"] = []string{}
 		}
